@@ -10,7 +10,7 @@
    (translate/call_bodies.py) and interpreted by C03/Model.v. *)
 From Coq Require Import ZArith QArith Reals List Bool Arith Lia Lra.
 From Verif Require Import Base.Num Base.Vec C03.Syntax Gen.C03Bodies C03.Poison C03.Model C03.Heap
-  C03.Protocol C03.Classes C03.Proofs C03.PModel C03.PProofs C03.Corr C03.Refuted.
+  C03.Protocol C03.Classes C03.Proofs C03.PModel C03.PProofs C03.Corr C03.Refuted C03.Transfer.
 Import ListNotations.
 
 (* ------------------------------------------------------------------ *)
@@ -459,3 +459,48 @@ Proof.
     + reflexivity.
   - intros o [<-|[]]. right; right. exists (2, 0)%nat, [0%R; 0%R]. reflexivity.
 Qed.
+
+(* ------------------------------------------------------------------ *)
+(* TRANSFER: the model EXECUTED by the correspondence shards (entries in [option Q], inside
+   Coq by vm_compute) is the rational restriction of the model the theorems above are ABOUT
+   (entries in [option R]).  The whole interpreter -- lincomb regimes, Operator.__call__, the
+   bridges, the body language, operator trees, the product-space loops -- commutes with
+   every homomorphism of the carrier class (C03/Transfer.v, by induction over bodies and
+   trees), and [option_map Q2R] is such a homomorphism.  No assumption links the two
+   instances any more. *)
+Theorem executed_model_is_restriction_of_proved_model :
+  forall (o : @op (option Q)) (x : @pyval (option Q)) (out : option (@pyval (option Q))) (s : @store (option Q)),
+  omap o2r (pvmap o2r) (call (fun _ _ => None) o x out s)
+  = call (fun _ _ => None) (opmap o2r o) (pvmap o2r x) (opv o2r out) (smap o2r s).
+Proof. exact call_Q_to_R. Qed.
+Print Assumptions executed_model_is_restriction_of_proved_model.
+Theorem executed_product_space_model_is_restriction :
+  forall (ents : list (@entry (option Q))) dom ran xs out (s : @store (option Q)),
+  omap o2r (fun l : list nat => l) (pso_call (fun _ _ => None) ents dom ran xs out s)
+  = pso_call (fun _ _ => None) (map (entmap o2r) ents) dom ran xs out (smap o2r s).
+Proof. intros ents dom ran xs out s. exact (pso_call_transfer o2r o2r_hom (fun _ _ => None) ents dom ran xs out s). Qed.
+
+(* ------------------------------------------------------------------ *)
+(* TIE TO THE SOURCE OF THE PROTOCOL ITSELF: Gen/C03Bodies.v also contains, regenerated on every
+   run, the statement lists of Operator.__call__ (with and without out), of
+   _default_call_out_of_place, of _default_call_in_place and the slot table of
+   Operator.__new__.  The hand-written [public_call], [default_oop], [default_ip], [slots] that all
+   theorems above are about are EQUAL to the interpreters of those lists, so reordering a check
+   in __call__ or changing a slot in __new__ breaks these proofs (not only the correspondence). *)
+Theorem protocol_model_is_generated_from_source :
+  forall (V : Type) (HV : Num V) (junk : nat -> nat -> V) (dom : space) (ran : rsp)
+         (ip : @pyval V -> @pyval V -> @M V (@pyval V)) (oop : @pyval V -> @M V (@pyval V))
+         (k : kind) (x y : @pyval V) (out : option (@pyval V)) (s : @store V),
+  public_call_gen junk dom ran ip oop x out s = public_call junk dom ran ip oop x out s /\
+  default_oop_gen junk ran ip x s = default_oop junk ran ip x s /\
+  default_ip_gen junk ran oop x y s = default_ip junk ran oop x y s /\
+  fst (slots_gen junk k ran oop ip) x y s = fst (slots junk k ran oop ip) x y s /\
+  snd (slots_gen junk k ran oop ip) x s = snd (slots junk k ran oop ip) x s.
+Proof.
+  intros V HV junk dom ran ip oop k x y out s. split; [|split; [|split]].
+  - exact (@public_call_is_generated V HV junk dom ran ip oop x out s).
+  - exact (@default_oop_is_generated V HV junk ran ip x s).
+  - exact (@default_ip_is_generated V HV junk ran oop x y s).
+  - exact (@slots_is_generated V HV junk k ran oop ip x y s).
+Qed.
+Print Assumptions protocol_model_is_generated_from_source.
